@@ -374,4 +374,128 @@ Proof.
   - intros e1 e2 He. rewrite (evalS_respects l e1 e2 He), (evalS_respects r e1 e2 He). reflexivity.
 Qed.
 
+
+(* ====== the same for ANY admissible assignment of axis orders (sort_contraction_indices) ====== *)
+Section G.
+Variable io : tree -> list ix.
+
+Lemma inds_g_spec t : inrange (leaves t) -> admissible n sl io t ->
+  NoDup (inds_g n sl io t) /\ forall j, In j (inds_g n sl io t) <-> In j (lkeys (sub_legs n sl t)).
+Proof.
+  destruct t as [k|l r]; intros HR Hadm.
+  - cbn [inds_g sub_legs]. split; [apply wfl_leaf_legs|tauto].
+  - cbn [admissible] in Hadm. cbn [inds_g]. tauto.
+Qed.
+Lemma inds_g_not_removed t j : inrange (leaves t) -> admissible n sl io t ->
+  In j (inds_g n sl io t) -> ~ In j (removed sl).
+Proof.
+  intros HR Hadm Hj. apply (inds_g_spec t HR Hadm) in Hj. apply (sub_legs_keys n sl t j HR) in Hj.
+  apply (cnt_pos_not_removed n sl (leaves t)). lia.
+Qed.
+
+(* ---------- the main induction: every subtree ---------- *)
+Theorem run_sub_g_correct t : inrange (leaves t) -> admissible n sl io t -> forall e, agree_removed e ->
+  run_sub_g n sl arr e0 io t (map e (inds_g n sl io t)) = evalS t e.
+Proof.
+  induction t as [k|l IHl r IHr]; intros HR Hadm e Ha.
+  - apply (leaf_correct k); [apply HR; left; reflexivity|exact Ha].
+  - cbn [leaves] in HR. cbn [admissible] in Hadm. destruct Hadm as (NDp & Hp & Hadl & Hadr).
+    pose proof (inrange_app_l n _ _ HR) as HL. pose proof (inrange_app_r n _ _ HR) as HRr.
+    cbn [run_sub_g]. unfold einsum2.
+    set (pi := inds_g n sl io (Node l r)).
+    set (li := inds_g n sl io l). set (ri := inds_g n sl io r).
+    set (es := env_of e0 pi (map e pi)).
+    destruct (inds_g_spec l HL Hadl) as [NDl Hl]. destruct (inds_g_spec r HRr Hadr) as [NDr Hr].
+    assert (Hes_pi : forall j, In j pi -> es j = e j) by (intros j Hj; apply env_of_in, Hj).
+    assert (Hes_rm : forall j, In j (removed sl) -> es j = e j).
+    { intros j Hj. unfold es. rewrite env_of_notin; [symmetry; apply Ha, Hj|].
+      intros Hin. apply (inds_g_not_removed (Node l r) j HR (conj NDp (conj Hp (conj Hadl Hadr))) Hin Hj). }
+    (* operands: induction hypotheses, on every assignment reached by the sum *)
+    rewrite (sum_over_ext_on dim _ es _ (fun e' => evalS l e' * evalS r e')).
+    2:{ intros e' He'.
+        assert (Ha' : agree_removed e').
+        { intros j Hj. rewrite He'.
+          - rewrite Hes_rm by exact Hj. apply Ha, Hj.
+          - unfold esummed2. rewrite in_unique, filter_In, in_app_iff. intros [[Hin|Hin] _].
+            + apply (inds_g_not_removed l j HL Hadl Hin Hj).
+            + apply (inds_g_not_removed r j HRr Hadr Hin Hj). }
+        unfold li, ri. rewrite (IHl HL Hadl e' Ha'), (IHr HRr Hadr e' Ha'). reflexivity. }
+    (* the summed indices are those of `summed` *)
+    rewrite (sum_over_perm dim (esummed2 li ri pi) (summed n sl false (Node l r))).
+    + change (sum_over dim (summed n sl false (Node l r)) es (fun e' => evalS l e' * evalS r e'))
+        with (evalS (Node l r) es).
+      apply (evalS_dep (Node l r) HR); [|exact Hes_rm].
+      intros j Hj. apply Hes_pi. apply Hp. exact Hj.
+    + apply NoDup_Permutation; [apply NoDup_unique|apply NoDup_summed, NoDup_involved, HR|].
+      intros j. unfold esummed2, summed. rewrite in_unique, !filter_In, in_app_iff.
+      cbn [involved]. rewrite legs_union2_in. unfold li, ri. rewrite Hl, Hr.
+      change (node_legs n sl false (Node l r)) with (sub_legs n sl (Node l r)).
+      destruct (lmem j (sub_legs n sl (Node l r))) eqn:El.
+      * assert (M : memb j pi = true) by (apply memb_In, Hp, lmem_in_keys, El). rewrite M. cbn. intuition congruence.
+      * assert (M : memb j pi = false).
+        { apply memb_false. intros Hin. apply Hp, lmem_in_keys in Hin. congruence. }
+        rewrite M. cbn. tauto.
+    + apply NoDup_unique.
+    + intros e1 e2 He. rewrite (evalS_respects l e1 e2 He), (evalS_respects r e1 e2 He). reflexivity.
+Qed.
+
+Theorem run_root_g_correct l r : wf_net n -> full_tree n (Node l r) ->
+  admissible n sl io l -> admissible n sl io r -> forall e, agree_removed e ->
+  run_root_g n sl arr e0 io (Node l r) (map e out_inds) = einsum_spec n sl arr e.
+Proof.
+  intros WF HF Hadl Hadr e Ha.
+  pose proof (full_tree_inrange n _ HF) as HR. cbn [leaves] in HR.
+  pose proof (inrange_app_l n _ _ HR) as HL. pose proof (inrange_app_r n _ _ HR) as HRr.
+  cbn [run_root_g]. unfold einsum2. fold out_inds.
+  set (li := inds_g n sl io l). set (ri := inds_g n sl io r).
+  set (es := env_of e0 out_inds (map e out_inds)).
+  destruct (inds_g_spec l HL Hadl) as [NDl Hl]. destruct (inds_g_spec r HRr Hadr) as [NDr Hr].
+  assert (Hout_nr : forall j, In j out_inds -> ~ In j (removed sl)).
+  { intros j Hj. rewrite out_inds_eq in Hj. apply filter_In in Hj. destruct Hj as [_ Hj].
+    apply negb_true_iff, memb_false in Hj. exact Hj. }
+  assert (Hes_o : forall j, In j out_inds -> es j = e j) by (intros j Hj; apply env_of_in, Hj).
+  assert (Hes_rm : forall j, In j (removed sl) -> es j = e j).
+  { intros j Hj. unfold es. rewrite env_of_notin; [symmetry; apply Ha, Hj|].
+    intros Hin. apply (Hout_nr j Hin Hj). }
+  rewrite (sum_over_ext_on dim _ es _ (fun e' => evalS l e' * evalS r e')).
+  2:{ intros e' He'.
+      assert (Ha' : agree_removed e').
+      { intros j Hj. rewrite He'.
+        - rewrite Hes_rm by exact Hj. apply Ha, Hj.
+        - unfold esummed2. rewrite in_unique, filter_In, in_app_iff. intros [[Hin|Hin] _].
+          + apply (inds_g_not_removed l j HL Hadl Hin Hj).
+          + apply (inds_g_not_removed r j HRr Hadr Hin Hj). }
+      unfold li, ri. rewrite (run_sub_g_correct l HL Hadl e' Ha'), (run_sub_g_correct r HRr Hadr e' Ha'). reflexivity. }
+  rewrite (sum_over_perm dim (esummed2 li ri out_inds) (summed n sl true (Node l r))).
+  - change (sum_over dim (summed n sl true (Node l r)) es (fun e' => evalS l e' * evalS r e'))
+      with (eval_root n sl arr (Node l r) es).
+    rewrite (eval_root_is_einsum n sl arr l r WF HF es).
+    apply einsum_spec_dep; assumption.
+  - apply NoDup_Permutation; [apply NoDup_unique|apply NoDup_summed, NoDup_involved, HR|].
+    intros j. unfold esummed2, summed. rewrite in_unique, !filter_In, in_app_iff.
+    cbn [involved]. rewrite legs_union2_in. unfold li, ri. rewrite Hl, Hr.
+    change (node_legs n sl true (Node l r)) with (root_legs n sl).
+    destruct (lmem j (root_legs n sl)) eqn:El.
+    + assert (M : memb j out_inds = true) by (apply memb_In, lmem_in_keys, El). rewrite M. cbn. intuition congruence.
+    + assert (M : memb j out_inds = false).
+      { apply memb_false. intros Hin. apply lmem_in_keys in Hin. congruence. }
+      rewrite M. cbn. tauto.
+  - apply NoDup_unique.
+  - intros e1 e2 He. rewrite (evalS_respects l e1 e2 He), (evalS_respects r e1 e2 He). reflexivity.
+Qed.
+
+End G.
+
 End P.
+
+(* the default orders of get_inds are admissible *)
+Lemma default_admissible (n : net) (sl : list slinfo) t : inrange n (leaves t) ->
+  admissible n sl (inds_sub n sl) t.
+Proof.
+  induction t as [k|l IHl r IHr]; intros HR; cbn [admissible]; [exact I|].
+  cbn [leaves] in HR.
+  destruct (inds_sub_spec n sl (Node l r) HR) as [ND H].
+  repeat split; try assumption; try apply H.
+  - apply IHl, (inrange_app_l n _ _ HR).
+  - apply IHr, (inrange_app_r n _ _ HR).
+Qed.
